@@ -212,7 +212,10 @@ def oracle(op, a, b=None):
     if op in SHIFTS:
         if not 0 <= y < WIDTH[k]:
             return "UNDEF"
-        return mkval(k, _wrap(k, x << y) if op == "shl" else x >> y)
+        if op == "shr":
+            return mkval(k, x >> y)         # floor(x / 2^y): always representable
+        z = x << y                          # the exact value x * 2^y; a lost bit is an overflow like any other
+        return mkval(k, z) if lo <= z <= hi else "UNDEF"
     if op == "add":
         z = x + y
     elif op == "sub":
@@ -283,7 +286,7 @@ def model_binary():
 
 
 # which version of the hand-written models the implementation is compared with: "fixed" (default: the code
-# with fixes/num-overflow-panics-in-every-build, num-byte-zero-divisor, num-rem-min-by-minus-one, fold-negate .diff) or "orig" (VERIF_NUM_MODEL=orig: the code
+# with fixes/num-overflow-panics-in-every-build, num-byte-zero-divisor, num-rem-min-by-minus-one, fold-negate, num-shl-lost-bits .diff) or "orig" (VERIF_NUM_MODEL=orig: the code
 # before those fixes; then the known classes must be listed in known_findings.json)
 MODEL_VERSION = os.environ.get("VERIF_NUM_MODEL", "fixed")
 
